@@ -87,6 +87,10 @@ class OrderEval:
                 return len(b)
             if _isvec(b) and t[2] == 'ndim':
                 return 1
+            if _isvec(b) and t[2] == 'dtype':
+                return 'dtype'
+            if _isvec(b) and t[2] == 'T':
+                return b
             raise Undecided('attribute .%s' % t[2])
         if k == 'cmp':
             if t[1] not in CMP:
@@ -137,6 +141,18 @@ class OrderEval:
                 return Vec(recv)
             if t[1] in ('sum',) and _isvec(recv) and not t[3] and not t[4]:
                 return sum(recv)
+            if t[1] == 'max' and _isvec(recv) and not t[3] and not t[4]:
+                if not recv:
+                    raise IndexError('max() of an empty vector')
+                return max(recv)
+            if t[1] == 'cumsum' and _isvec(recv):
+                out, acc = Vec(), 0
+                for x in recv:
+                    acc += x
+                    out.append(acc)
+                return out
+            if t[1] in ('any', 'all') and _isvec(recv) and not t[3] and not t[4]:
+                return any(recv) if t[1] == 'any' else all(recv)
             if t[1] == 'argsort' and _isvec(recv):
                 return self.argsort(recv, dict(t[4]))
             raise Undecided('method .%s' % t[1])
@@ -296,9 +312,26 @@ class OrderEval:
             return Vec(v) if name.endswith('list') else tuple(v)
         if name == 'builtins.set' and len(args) == 1:
             return set(self.ev(args[0]))
-        if name == 'numpy.diff' and len(args) == 1 and not kw:
-            v = self.ev(args[0])
+        if name == 'numpy.diff' and len(args) == 1 and set(kw) <= {'prepend', 'append', 'axis'}:
+            v = list(self.ev(args[0]))
+            for key, front in (('prepend', True), ('append', False)):
+                if key in kw:
+                    ex = self.ev(kw[key])
+                    ex = list(ex) if _isvec(ex) else [ex]
+                    v = ex + v if front else v + ex
             return Vec(b - a for a, b in zip(v[:-1], v[1:]))
+        if name in ('numpy.count_nonzero',) and len(args) == 1:
+            return sum(1 for x in self.ev(args[0]) if x)
+        if name in ('numpy.full', 'numpy.full_like') and len(args) >= 2:
+            shp = self.ev(args[0])
+            n = len(shp) if name.endswith('_like') else (shp[0] if isinstance(shp, tuple) else shp)
+            return Vec([self.ev(args[1])] * n)
+        if name in ('numpy.any', 'builtins.any') and len(args) == 1 and not kw:
+            return any(self.ev(args[0]))
+        if name in ('numpy.all', 'builtins.all') and len(args) == 1 and not kw:
+            return all(self.ev(args[0]))
+        if name in ('numpy.max', 'builtins.max') and len(args) == 1 and not kw:
+            return max(self.ev(args[0]))
         if name == 'numpy.cumsum' and len(args) == 1:
             out, s = Vec(), 0
             for x in self.ev(args[0]):
